@@ -8,16 +8,16 @@ package extensionsupport
 
 //@ func FindExtension
 //@   props C07 C04
-//@   requires extensions != nil
 //@   pure
+//@   ensures no_list_no_extension: extensions == nil ==> ret == nil
 //@   ensures found_is_member: ret != nil ==> exists k int :: 0 <= k && k < len(*extensions) && oidString(content((*extensions)[k].Id)) == oidString(content(ret.Id)) && oidString(content(ret.Id)) == oidString
 
 //@ func CheckForCriticalUnhandledCRLExtensions
 //@   props C07 C06
-//@   requires extensions != nil
 //@   pure
-//@   ensures[C06] gate: err == nil ==> forall k int :: 0 <= k && k < len(*extensions) && (*extensions)[k].Critical ==> handledOID(oidString(content((*extensions)[k].Id)))
-//@   ensures[C06] gate_complete: err != nil ==> exists k int :: 0 <= k && k < len(*extensions) && (*extensions)[k].Critical && !handledOID(oidString(content((*extensions)[k].Id)))
+//@   ensures[C06] no_extensions_pass: extensions == nil ==> err == nil
+//@   ensures[C06] gate: err == nil && extensions != nil ==> forall k int :: 0 <= k && k < len(*extensions) && (*extensions)[k].Critical ==> handledOID(oidString(content((*extensions)[k].Id)))
+//@   ensures[C06] gate_complete: err != nil ==> extensions != nil && exists k int :: 0 <= k && k < len(*extensions) && (*extensions)[k].Critical && !handledOID(oidString(content((*extensions)[k].Id)))
 //@   loop 1 invariant[C06] forall k int :: 0 <= k && k <= $idx ==> ((*extensions)[k].Critical ==> handledOID(oidString(content((*extensions)[k].Id))))
 
 //@ func GeneralName.GetGeneralNameType
